@@ -158,6 +158,20 @@ def run_c16(ctx: Ctx):
 REGISTRY["C16"] = run_c16
 
 
+def run_c18(ctx: Ctx):
+    ctx.trusted_base = ["Coq 8.16.1 kernel; Print Assumptions: closed under the global context",
+                        "Model/Tags.v (parse_wheel_tags) and Model/PlatParse.v (Platform.parse / __str__ / Arch.parse incl. the regular expression, for ASCII input) are hand-written models tied by the S-wheel / S-platparse streams",
+                        "CPython's re and str methods are modelled, not verified; operating systems outside manylinux/musllinux/macos/windows are outside the model (skipped by the correspondence)",
+                        "packaging.utils.parse_wheel_filename as the reference of the direct oracle"]
+    props_spec.proof_step(ctx, "Props/C18.v", ["C18_wheel", "C18_ext", "C18_parts", "C18_plat_rt_versioned", "C18_plat_rt_windows", "C18_alias"], extra_targets=["Model/CorrTags.v"])
+    pt.stream_swheel_platparse(ctx)
+    pt.oracle_c18(ctx)
+    ctx.coverage["rule"] = "PEP 427 names (name/version spellings x build tag x compressed tag sets x platform tags incl. ones ending in characters of '.whl'), random dash-joined near misses in the correspondence; platform strings of all documented families with multi-digit X_Y, aliases and near-miss names"
+
+
+REGISTRY["C18"] = run_c18
+
+
 def with_algebra_cone(inner, pid):
     """C04/C06/C17 theorems are stated over the regenerated specifier algebra: re-check that cone and the
     translator's validation stream as part of the property"""
